@@ -28,20 +28,46 @@ def _fname(c: ast.Call) -> str:
 # ------------------------------------------------------------------------------------------- absolute tolerances
 @rule("R-ABS-TOL", floor=0, witness_min=1)
 def r_abs_tol(ctx: RuleCtx, col: Collector):
-    """Outside the matrix-classification predicates (documented as tolerance based), no decision is taken with
-    np.isclose / np.allclose / math.isclose and their default *absolute* tolerance (1e-8): such a test is not scale
-    invariant - data of small magnitude or small relative spread is treated as equal / zero.  Accepted: an explicit
-    atol=0 (purely relative comparison)."""
+    """No decision is taken with np.isclose / np.allclose / math.isclose and their default *absolute* tolerance (1e-8):
+    such a test is not scale invariant - data of small magnitude or small relative spread is treated as equal / zero
+    (a well-conditioned matrix in small units was classified as diagonal).  Accepted: an explicit atol=0 (purely
+    relative comparison); a result that only decides whether a warning is built; branches for the optional cvxopt
+    matrix type are not judged."""
+    from .solver import guard_facts
     m = ctx.model
     for f in _functions(m):
-        if f.rel in CLASSIFIER_FILES or f.rel.startswith("pymoto/solvers/"):
-            continue
+        cfg = None
         for n in ast.walk(f.node):
             if isinstance(n, ast.Call) and _fname(n) in ("isclose", "allclose"):
                 atol = [k.value for k in n.keywords if k.arg in ("atol", "abs_tol")]
                 if atol and isinstance(atol[0], ast.Constant) and atol[0].value == 0:
                     col.ok(where_of(f), f.rel, line_of(n), norm(n), "purely relative comparison (atol=0)")
                     continue
+                # branch for the optional cvxopt matrix type (not installed here): not judged
+                st = n
+                while not isinstance(st, ast.stmt):
+                    st = parent(st)
+                cfg = cfg or ctx.flow.cfg(f)
+                nd = cfg.node_of(st)
+                if nd is not None and any("cvxopt" in t and pol for t, pol in guard_facts(cfg, nd)):
+                    col.assume(f"{f.short}: tolerance test in the cvxopt branch (optional back-end, not installed) is not judged")
+                    continue
+                # a result that only decides whether a warning object is built has no effect on any value
+                if isinstance(st, ast.Assign) and len(st.targets) == 1 and isinstance(st.targets[0], ast.Name):
+                    nm = st.targets[0].id
+                    uses = [x for x in ast.walk(f.node) if isinstance(x, ast.Name) and x.id == nm and isinstance(x.ctx, ast.Load)]
+                    harmless = bool(uses)
+                    for u in uses:
+                        p_ = parent(u)
+                        if isinstance(p_, ast.If) and p_.test is u and not any(
+                                isinstance(y, (ast.Return, ast.Assign, ast.AugAssign, ast.Raise)) for b in p_.body + p_.orelse for y in ast.walk(b)):
+                            continue
+                        if isinstance(p_, ast.Compare) and isinstance(parent(p_), ast.If) and norm(p_).endswith("isNone"):
+                            continue
+                        harmless = False
+                    if harmless:
+                        col.benign(where_of(f), f.rel, line_of(n), norm(n), f"'{nm}' only decides whether a warning is issued")
+                        continue
                 col.bad(where_of(f), f.rel, line_of(n), norm(n),
                         f"'{norm(n)}' compares with an absolute tolerance ({'default 1e-8' if not atol else U(atol[0])}): the "
                         f"outcome depends on the scale of the data (values around 1e-9, or a spread below 1e-5 of the mean, "
@@ -1172,4 +1198,67 @@ def r_int_trunc(ctx: RuleCtx, col: Collector):
                         f"truncated towards zero without any warning")
             else:
                 col.ok(where_of(f), f.rel, line_of(n), construct, "no fractional values stored")
+    dedupe(col)
+
+
+# ------------------------------------------------------------------------------------------- transposition mode is honoured
+@rule("R-TRANS-USE", floor=2)
+def r_trans_use(ctx: RuleCtx, col: Collector):
+    """A solve() that selects the matrix of the requested mode into a local (A = self.A / self.A.T / self.A.conj().T)
+    uses that local for every product with the matrix - a residual formed with self.A belongs to the un-transposed
+    system - and hands `trans` on to every inner solver / preconditioner it calls."""
+    m = ctx.model
+    sb = m.solver_base()
+    for c in m.solver_classes():
+        f = m.resolve_method(c, "solve")
+        if f is None or f.cls is not c:
+            continue
+        selfn = m.self_name(f)
+        params = f.pos_params()
+        tp = "trans" if "trans" in params else None
+        if tp is None:
+            continue
+        # mode-local matrix names: assigned from self.<attr> and from its transpose under tests of trans
+        locals_: Dict[str, str] = {}
+        for n in ast.walk(f.node):
+            if isinstance(n, ast.Assign) and len(n.targets) == 1 and isinstance(n.targets[0], ast.Name):
+                v = norm(n.value)
+                for suffix in (".T", ".conj().T", ".T.conj()", ".conjugate().T"):
+                    if v.startswith(f"{selfn}.") and v.endswith(suffix):
+                        locals_[n.targets[0].id] = v[:-len(suffix)]
+        at = ctx.flow.attr_types(c)
+        for loc, attr in sorted(locals_.items()):
+            dispatch = {id(n) for n in ast.walk(f.node) if isinstance(n, ast.Assign) and len(n.targets) == 1 and
+                        isinstance(n.targets[0], ast.Name) and n.targets[0].id == loc}
+            direct = []
+            for n in ast.walk(f.node):
+                if isinstance(n, ast.BinOp) and isinstance(n.op, ast.MatMult) and norm(n.left) == attr:
+                    direct.append(n)
+                if isinstance(n, ast.Call) and isinstance(n.func, ast.Attribute) and n.func.attr == "dot" and norm(n.func.value) == attr:
+                    direct.append(n)
+            construct = f"{c.name}.solve: products use the mode-local matrix '{loc}'"
+            if direct:
+                col.bad(where_of(f), f.rel, line_of(direct[0]), construct,
+                        f"'{norm(direct[0])}' multiplies with {attr} although '{loc}' holds the matrix of the requested mode: for "
+                        f"trans='T'/'H' and a matrix that is not real symmetric this residual belongs to another system "
+                        f"({len(direct)} site(s))")
+            else:
+                col.ok(where_of(f), f.rel, line_of(f.node), construct, f"no direct product with {attr} outside the mode dispatch")
+        # inner solver calls pass the mode on
+        for n in ast.walk(f.node):
+            if isinstance(n, ast.Call) and isinstance(n.func, ast.Attribute) and n.func.attr == "solve" and norm(n.func.value).startswith(f"{selfn}."):
+                tys = m.expr_types(f, n.func.value, c, at)
+                if not any(m.classes.get(t) is not None and m.is_subclass(m.classes[t], sb) for t in tys):
+                    continue
+                passed = [k.value for k in n.keywords if k.arg == "trans"] or (n.args[2:3] if len(n.args) >= 3 else [])
+                construct = f"{c.name}.solve: '{norm(n)[:60]}' passes the mode on"
+                if passed and tp in _names(passed[0]):
+                    col.ok(where_of(f), f.rel, line_of(n), construct, "trans handed on")
+                elif passed and isinstance(passed[0], ast.Constant):
+                    # a fixed mode is fine only inside a branch that tests trans
+                    col.ok(where_of(f), f.rel, line_of(n), construct, f"fixed mode {passed[0].value!r}")
+                else:
+                    col.bad(where_of(f), f.rel, line_of(n), construct,
+                            f"the inner solve is called without trans: it solves the un-transposed (coarse / preconditioning) "
+                            f"system whatever mode was requested")
     dedupe(col)
